@@ -115,6 +115,10 @@ PDup == PFn(<< PBlk("b0", A0, << Op("INT_ADD", Reg("B", 2), Ram(0, 32, 2), Ram(0
 IDup == Fn(<< Blk("b0", A0, << L0, Asg(V("B", 2), Bin("IntAdd", Tmp("$load_temp0", 2), Tmp("$load_temp0", 2))) >>, << Call("g", "b2") >>, <<>>),
               I2(<<L0, L1>>) >>)
 
+\* ---- A1/A4: indirect call through an implicit RAM operand (a read of the jump itself on the P-Code side, a Load Def on the IR side)
+PCallRam == PFn(<< PBlk("b0", A0, <<>>, << PJ("CALLIND", "", Ram(0, 32, 2), "b2", N, <<>>) >>), P2 >>)
+ICallRam == Fn(<< Blk("b0", A0, << L0 >>, << [tid |-> "j", addr |-> "0", k |-> "callind", e |-> Tmp("$load_temp0", 2), ret |-> "b2"] >>, <<>>), I2(<<L0, L1>>) >>)
+
 \* ---- A7: indirect jump through A with the hint b2 (initial state 3: A = address of b2)
 PIndF == PFn(<< PBlk("b0", A0, <<>>, << PInd(Reg("A", 2), <<A2, <<1, 1>>>>) >>), P2 >>)
 IIndF(ind) == Fn(<< Blk("b0", A0, <<>>, << BrInd(A) >>, ind), I2(<<L0, L1>>) >>)
@@ -148,7 +152,8 @@ HandCases == <<
   Case("mask-wrong", PMask(<< Mask(<<240, 255>>) >>), IMask(SpBad), ""),                                   \* 16 DIFFERENT
   Case("two-masks", PMask(<< Mask(<<240, 255>>), Mask(<<224, 255>>) >>), IMask(SpBad), ""),                \* 17 outside the class (static)
   Case("no-alignment-mask", PMask(<< Mask(<<15, 0>>) >>), IMask(SpBad), ""),                               \* 18 outside the class (static)
-  Case("panic", PRef("g"), Fn(<<>>), "panic in normalize_optimize: boom") >>                               \* 19 DIFFERENT (panic)
+  Case("panic", PRef("g"), Fn(<<>>), "panic in normalize_optimize: boom"),                                 \* 19 DIFFERENT (panic)
+  Case("callind-ram", PCallRam, ICallRam, "") >>                                                           \* 20 equivalent (A1, A4)
 ExpectedBad == {4, 5, 6, 7, 9, 13, 16, 19}
 ExpectedOutclass == {14, 17, 18}
 
